@@ -2,10 +2,10 @@ package props
 
 import (
 	"fmt"
-	"os"
 	"go/constant"
 	"go/token"
 	"go/types"
+	"os"
 	"strings"
 	"unicode"
 	"unicode/utf8"
